@@ -4,7 +4,7 @@ from __future__ import annotations
 import ast
 
 from ..cfg import CFG
-from ..engine import AnalysisError, PropertySpec, norm
+from ..engine import AnalysisError, MechanismMissing, PropertySpec, norm
 from ..pyutil import call_name, calls, const_str, dotted, is_name, walk_local
 from ._listener import listener_symmetry
 
@@ -70,7 +70,7 @@ def r10_1(ctx, rep):
             if ch and len(ch) >= 3:
                 loop, chain = n, ch
     if loop is None:
-        raise AnalysisError(R, "categorisation loop (if/elif chain over s.prefixes) not found in Generator.exitClass")
+        raise MechanismMissing(R, "categorisation loop (if/elif chain over s.prefixes) not found in Generator.exitClass")
     lits = [c[0] for c in chain]
     rep.ob(R, SITE, "test order", lits == WANT_ORDER + ["<else>"],
            "tests must be %s then a catch-all; found %s (a symbol with two of these prefixes is classified by the first test)"
@@ -183,7 +183,7 @@ def r10_5(ctx, rep):
     R = "R10.5"
     n = listener_symmetry(ctx, rep, R, TREE, "StateAnnotator")
     if n < 1:
-        raise AnalysisError(R, "no enter/exit state pair found in StateAnnotator")
+        raise MechanismMissing(R, "no enter/exit state pair found in StateAnnotator")
     ms = ctx.methods(TREE, "StateAnnotator", R)
     for name in ("enterExpression", "exitExpression"):
         fn = ms.get(name)
@@ -251,7 +251,7 @@ def r10_6(ctx, rep):
                         ok = True
             rep.ob(R, site, "reuse of der(%s)" % subj, ok, "when the derivative exists already it must be returned, not re-created")
     if n < 2:
-        raise AnalysisError(R, "fewer than 2 derivative-creation sites found")
+        raise MechanismMissing(R, "fewer than 2 derivative-creation sites found")
 
 
 # -- seeded variants ---------------------------------------------------------
